@@ -26,6 +26,9 @@ def replay_facade(model, method="oil_FVF", reassigned=False, container="array"):
     if reassigned:
         # built for one fluid, then its public attributes are set to the witness' values (Fluid is a plain mutable dataclass)
         f = Fluid(150.0, 28.0, 0.65, 400.0, 2.0, 0.2)
+        if reassigned == "used" and method != "pressure_bubblepoint":
+            p_ = np.array([m["p0"], m["p1"]])
+            getattr(f, method)(*((p_, m["Tpc"], m["ppc"]) if method.startswith("gas") else (p_,)))
         f.temperature, f.api_gravity, f.gas_specific_gravity, f.solution_gor_initial, f.salinity = m["T"], m["api"], m["gg"], m["rsi"], m["S"]
     else:
         f = Fluid(m["T"], m["api"], m["gg"], m["rsi"], m["S"], m["Swi"])
@@ -168,6 +171,45 @@ def job_unknown_fluid(job):
         job.crosshair(f"sutton/{fn.replace('_', ' ')}", src, fn, bound="str of length <= 9", timeout=60 if job.tier == "quick" else 240)
 
 
+def _reassigned_obligations(job, mod, vs, dom, want, p, names=None):
+    T_, api, gg, rsi, S = (vs[k] for k in ("T", "api", "gg", "rsi", "S"))
+    old_vals = {k_: fresh(f"old_{k_}", pos=True) for k_ in ("T", "api", "gg", "rsi", "S")}
+    for name, (args, ref) in want.items():
+        if names is not None and name not in names:
+            continue
+        for used_before in (False, True):
+            def run_reassigned():
+                g = mod.Fluid(old_vals["T"], old_vals["api"], old_vals["gg"], old_vals["rsi"], old_vals["S"], vs["Swi"])
+                if used_before:
+                    getattr(g, name)(*args)          # the method has already answered for the old fluid (anything cached then is stale now)
+                g.temperature, g.api_gravity, g.gas_specific_gravity, g.solution_gor_initial, g.salinity = T_, api, gg, rsi, S
+                return getattr(g, name)(*args)
+            how = "after a first call and reassigning the attributes" if used_before else "after reassigning the attributes"
+            for k, pr in enumerate(paths(job, run_reassigned, dom)):
+                rp = (replay_facade, {"method": name, "reassigned": "used" if used_before else True})
+                if pr.exc is not None:
+                    job.prove(f"facade/{name} {how} raises[path{k}]", pr.pc, bound="2 pressures", replay=rp, note=repr(pr.exc)[:80])
+                    continue
+                got = pr.value
+                job.prove(f"facade/{name} {how}==stand-alone correlation at the current attributes[path{k}]",
+                          pr.pc + [T.b_or(*[not_close(got.d[j], ref(p.d[j]), abs_tol=Fraction(0)) for j in range(2)])], bound="2 pressures", replay=rp)
+
+
+def job_facade_oil_reassigned(job):
+    """The oil methods of the facade on an object whose oil parameters are changed after it has been used (C12: the
+    bubble-point behaviour is that of the object's current fluid)."""
+    mod, gas, ufs = load_fluid_with_ufs()
+    job.encoded(mod, "Fluid.oil_FVF", "Fluid.oil_viscosity")
+    job.stub("stand-alone oil correlations imported by fluid.py: uninterpreted recording functions of their arguments")
+    vs, dom = box(None, T=(60, 400), api=(10, 60), gg=("0.5", "1.5"), rsi=(0, 3000), S=(0, 25), Swi=(0, 1), p0=(15, 20000), p1=(15, 20000))
+    p = SymArray([vs["p0"], vs["p1"]], "f8")
+    T_, api, gg, rsi = vs["T"], vs["api"], vs["gg"], vs["rsi"]
+    want = {"oil_FVF": ((p,), lambda q: ufs["b_o_Standing"](T_, q, api, gg, rsi)),
+            "oil_viscosity": ((p,), lambda q: ufs["viscosity_beggs_robinson"](T_, q, api, gg, rsi))}
+    _reassigned_obligations(job, mod, vs, dom, want, p)
+    job.prove("facade-oil/reach", dom, expect="sat")
+
+
 def job_facade(job):
     mod, gas, ufs = load_fluid_with_ufs()
     job.encoded(mod, "Fluid.water_FVF", "Fluid.water_viscosity", "Fluid.gas_FVF", "Fluid.gas_viscosity", "Fluid.oil_FVF",
@@ -202,20 +244,7 @@ def job_facade(job):
     _container_obligations(job, f, vs, dom, want, p)
     # the facade answers for the object's CURRENT attributes: an object built for one fluid whose public attributes are then
     # reassigned must answer for the new values (nothing frozen at construction time)
-    old_vals = {k_: fresh(f"old_{k_}", pos=True) for k_ in ("T", "api", "gg", "rsi", "S")}
-    for name, (args, ref) in want.items():
-        def run_reassigned():
-            g = mod.Fluid(old_vals["T"], old_vals["api"], old_vals["gg"], old_vals["rsi"], old_vals["S"], vs["Swi"])
-            g.temperature, g.api_gravity, g.gas_specific_gravity, g.solution_gor_initial, g.salinity = T_, api, gg, rsi, S
-            return getattr(g, name)(*args)
-        for k, pr in enumerate(paths(job, run_reassigned, dom)):
-            rp = (replay_facade, {"method": name, "reassigned": True})
-            if pr.exc is not None:
-                job.prove(f"facade/{name} after reassigning the attributes raises[path{k}]", pr.pc, bound="2 pressures", replay=rp, note=repr(pr.exc)[:80])
-                continue
-            got = pr.value
-            job.prove(f"facade/{name} after reassigning the attributes==stand-alone correlation at the current attributes[path{k}]",
-                      pr.pc + [T.b_or(*[not_close(got.d[j], ref(p.d[j]), abs_tol=Fraction(0)) for j in range(2)])], bound="2 pressures", replay=rp)
+    _reassigned_obligations(job, mod, vs, dom, want, p)
     for k, pr in enumerate(paths(job, lambda: f.pressure_bubblepoint(), dom)):
         job.prove(f"facade/pressure_bubblepoint==stand-alone[path{k}]",
                   pr.pc + [not_close(pr.value, ufs["pressure_bubblepoint_Standing"](T_, api, gg, rsi), abs_tol=Fraction(0))], bound="-",
